@@ -387,6 +387,29 @@ def c08_procedure_declaration_drops_text():
     return _rejected("module m\nprocedure(real)), pointer :: pp => null()\nend module m\n")
 
 
+def c15_sentinel_statement_first_in_anonymous_main_program():
+    """D66: '!$ x = 1' as the first line of a main program without PROGRAM statement (sentinel lines included)"""
+    import signal
+
+    class _Hang(Exception):
+        pass
+
+    def _alarm(*_a):
+        raise _Hang()
+    old = signal.signal(signal.SIGALRM, _alarm)
+    signal.alarm(20)
+    try:
+        t = str(_parser()(_reader("!$ x = 1\ny = 2\nend\n", include_omp_conditional_lines=True)))
+        return t.split() == "x = 1 y = 2 END".split(), dict(printed=t)
+    except _Hang:
+        return False, dict(outcome="no result after 20 s (Program.match loops)")
+    except BaseException as e:  # noqa
+        return False, dict(outcome="%s: %s" % (type(e).__name__, str(e)[:100]))
+    finally:
+        signal.alarm(0)
+        signal.signal(signal.SIGALRM, old)
+
+
 def c06_named_end_of_unnamed_unit():
     """D43 (fixed)"""
     return _only_syntax_error("block data\nend block data foo\n")
